@@ -92,6 +92,41 @@ def shard(arg):
   return n, nontrivial, bad, pairs
 
 
+SEGMENTS = ['..', '.', '', 'a', ' ', '~', '\u2025', 'a.b']
+PREFIXES = ['', 'a;x=', ';', 'a;', 'a.b;x=', ' ', '/', '\uff0f']
+
+
+def shard_structured(arg):
+  """Path-shaped names: prefix + up to 6 segments joined by '/' (dot segments deep enough to climb out of
+  _tagged/xxx/yyy/ are far longer than the exhaustive string bound)."""
+  prefix, depth, data_dir = arg
+  dbs = make_dbs(data_dir)
+  n = nontrivial = 0
+  bad = []
+  deep = ['..', 'a', '.']
+  seqs = [segs for k in range(1, min(depth, 3) + 1) for segs in itertools.product(SEGMENTS, repeat=k)]
+  seqs += [segs for k in range(1, depth + 5) for segs in itertools.product(deep, repeat=k)]
+  for _once in (1,):
+    for segs in seqs:
+      for sepc in ('/', '\uff0f'):
+        name = prefix + sepc.join(segs)
+        for kind, hashed, db in dbs:
+          n += 1
+          try:
+            p1 = db.getFilesystemPath(name)
+          except Exception as e:   # noqa
+            if len(bad) < 3:
+              bad.append(('exception', '%s getFilesystemPath(%r) raised %r' % (kind, name, e), {'name': name, 'kind': kind, 'hashed': hashed}))
+            continue
+          if not confined(p1, data_dir):
+            if len(bad) < 3:
+              bad.append(('escape:' + kind, '%s path of %r is %r (normalised %r), outside %r' % (
+                kind, name, p1, os.path.normpath(p1), data_dir), {'name': name, 'kind': kind, 'hashed': hashed}))
+          else:
+            nontrivial += 1
+  return n, nontrivial, bad, {}
+
+
 def create_all(arg):
   """Really create every string up to `maxlen` through the plugin; nothing may appear outside data/."""
   kind, hashed, maxlen = arg
@@ -147,6 +182,8 @@ def run(ctx):
       args.append((pre, maxlen, data_dir, 6))
   args = core.seeded_order(args, ctx.seed)
   res = core.pmap(shard, args, chunksize=1)
+  res += core.pmap(shard_structured, [(pre, ctx.pick(4, 5), data_dir) for pre in PREFIXES], chunksize=1)
+  args = args + [(pre, 0, 0, 0) for pre in PREFIXES]
   evals = nontrivial = 0
   allpairs = {}
   for (pre, _, _, _), (n, nt, bad, pairs) in zip(args, res):
